@@ -13,7 +13,7 @@ CLAIMED = {
             'write result, contiguity guard, no discarded Result on the append chain, catalogue paired with log-list changes',
             'taint + edge dominance + discard analysis + pairing', '3 C02'),
     'C03': ('erasure of the removed data/index range on every success path of strip_log_to, rewind completeness against the write-set '
-            'of write(), catalogue pairing, index-equality guard', 'must-pass-through + field sets + pairing', '3 C03'),
+            'of write(), catalogue pairing, index-equality guard, recount honours count 0, cursors measured from the index entry of the cut point, adjacent-delta rewind, every listed log file is scanned', 'must-pass-through + field sets + pairing', '3 C03'),
     'C04': ('write ordering (data before index, flush before Ok, snapshot publication order), single-writer ownership table, '
             'fresh-image layout, last-applied after apply, zero terminator after the last record, exclusive bound of the snapshot unlink loop', 'dominance / must-pass-through on MIR CFGs + who-may-call table', '3 C04'),
     'C05': ('save routing and funnel into write_index under ctx.wait, fresh-file threshold below the smallest record, exclusive '
@@ -26,25 +26,25 @@ CLAIMED = {
             'install file truncated, install order', 'call-graph reachability + taint + dominance', '3 C08'),
     'C09': ('value map <-> listing index pairing, md5 provenance from get_md5 of the same content, unchanged-content short circuit guard, '
             'history bound, key separator round trip (decoded format templates), index size counter guard, listing total = counter incremented by 1 under both filters', 'pairing + taint + guard analysis', '3 C09'),
-    'C10': ('change implies both notifications on every path, atomic compare-and-register (synchronous handler, complementary edges), '
+    'C10': ('change implies both notifications on every path, subscriber entries dropped only when empty after the member removal, atomic compare-and-register (synchronous handler, complementary edges), '
             'comparison shape, timeout driver re-arm, subscriber map mirroring', 'must-pass-through + guard analysis', '3 C10'),
     'C11': ('service map <-> namespace index pairing, empty-service guard, reverse map maintenance, counter co-update with sign and '
-            'condition per Service mutator', 'pairing + guard analysis + arithmetic shape', '3 C11'),
+            'condition per Service mutator, reverse-set update keyed by the removed instance\'s owner', 'pairing + guard analysis + arithmetic shape', '3 C11'),
     'C12': ('ownership refusal path in remove_instance, disconnect passes the owner and spares persistent instances, query filter truth '
-            'table (exhaustive), registration keeps its fields', 'guard analysis + exhaustive interpretation of the filter closure', '3 C12'),
-    'C13': ('is_enable_timeout truth table (exhaustive), re-validation before expiry, arming guards, driver chain', 'abstract interpretation + guard analysis', '3 C13'),
+            'table (exhaustive), registration keeps its fields, lists handed to the protection-threshold filter fetched unfiltered', 'guard analysis + exhaustive interpretation of the filter closure', '3 C12'),
+    'C13': ('is_enable_timeout truth table (exhaustive), re-validation before expiry, arming whenever (and only when) the stored instance is subject to the clock, take-over makes the instance local, liveness fields never inherited from the stored record, driver chain', 'abstract interpretation + guard analysis', '3 C13'),
     'C14': ('position and modulus of the owner range computed over the same (valid) population as route_addr, same hasher, is_range truth '
-            'table (exhaustive on a grid), range refresh after status change', 'taint + exhaustive interpretation + pairing', '3 C14'),
+            'table (exhaustive on a grid), range refresh after status change and its propagation to the naming actor\'s copy', 'taint + exhaustive interpretation + pairing', '3 C14'),
     'C15': ('THIN: dead-node client invalidation, an arm per sync message kind forwarding to the naming actor, local changes announced '
-            'through the delay-notify batch, every client-set removal announced to the naming actor on every path; convergence itself is not decided', 'wiring checks on the call/message graph', '3 C15'),
+            'through the delay-notify batch, every client-set removal announced to the naming actor on every path, snapshots carry own instances only, the route carries the owner\'s node id; convergence itself is not decided', 'wiring checks on the call/message graph', '3 C15'),
     'C16': ('route table extracted from the registration DSL x middleware literal tables (exhaustive), middleware pass logic as a truth '
             'table over its branch conditions, per-route end-to-end evaluation of the middleware with the tables it consults, classification of the routed (percent-decoded) path, gRPC ignore list and dispatch guard table', 'route-DSL evaluation + table cross product + CFG truth-table walk', '3 C16'),
     'C17': ('console route table x permission tables x roles (exhaustive): login pass-logic truth table, exempt list, static-file bypass, '
             'role monotonicity, write-sink classification of handlers per role', 'table cross product + call-graph sink classification', '3 C17'),
     'C18': ('privilege predicates as exhaustive truth tables, every console data handler guarded by a privilege check or handing the '
-            'session privilege to the listing, listing filters guarded, session privilege provenance', 'abstract interpretation + guard analysis over the route table', '3 C18'),
+            'session privilege to the listing, listing filters guarded, every listing producer that receives the privilege consults it, is_all() implies every key permitted, session privilege provenance', 'abstract interpretation + guard analysis over the route table', '3 C18'),
     'C19': ('high-water marks reach the sequence on all apply paths, snapshot stores the reserved end, single id source, SimpleSequence '
-            'arithmetic by exhaustive small-grid interpretation', 'taint + sibling forms + abstract interpretation', '3 C19'),
+            'arithmetic by exhaustive small-grid interpretation, SeqGroup buffer order by exhaustive interpretation over its state classes, range results taken from the replicated reply', 'taint + sibling forms + abstract interpretation', '3 C19'),
     'C20': ('varint writer/reader/size agreement for ALL u64 by exhaustive abstract interpretation of MIR over 65 leading-bit classes; '
             'buffer reads guarded by and bounded to the valid end; is_empty truth table; end-marker test; consumer alternation', 'abstract interpretation (bit provenance) + guard analysis', '3 C20'),
 }
